@@ -152,6 +152,10 @@ def mayControl (x : Sess) : Bool := x.kind = .internal || hasPerm x Generated.Hu
 
 /-! ### room-session map (roomsessions_builtin.go) -/
 
+/-- The room-session id the server falls back to: the session's own public id. -/
+def pubRs (s : Nat) : String := "pub:" ++ toString s
+
+
 def rsDelete (h : Hub) (s : Nat) : Hub :=
   match h.sid2rs s with
   | none => h
@@ -502,7 +506,7 @@ def alreadyIn (h : Hub) (x : Sess) (s : Nat) (r : String) : Bool :=
 
 /-- Joining the room the session is in already: only the room-session id is updated. -/
 def processAlready (a : Acc) (s : Nat) (x : Sess) (rsid : String) : Acc :=
-  let rs := if rsid = "" then "pub:" ++ toString s else rsid
+  let rs := if rsid = "" then pubRs s else rsid
   let h1 := if x.roomSess = rs then a.h else setSess (rsSet a.h s rs) s (some { x with roomSess := rs })
   sendTo { a with h := h1 } s (.error "already_joined")
 
@@ -529,27 +533,37 @@ def processRoom (a : Acc) (s : Nat) (r rsid : String) (reply : JoinReply) : Acc 
 
 /-! ### hello / resume / disconnect / bye / housekeeping -/
 
+/-- The tables after a successful registration of a new session on connection `c` (`Hub.processRegister`). -/
+def helloSess (c b : Nat) (kind : Kind) (user : String) (dialoutFeat inCallFeat : Bool) : Sess :=
+  { backend := b, kind := kind, user := user, dialoutFeat := dialoutFeat, inCallFeat := inCallFeat, conn := some c,
+    inCall := if kind = .internal && !inCallFeat then 3 else 0 }
+
+def helloTables (h : Hub) (c b : Nat) (kind : Kind) (user : String) (dialoutFeat inCallFeat : Bool) : Hub :=
+  let s := h.nextSid
+  let counted := kind ≠ .internal
+  let x : Sess := helloSess c b kind user dialoutFeat inCallFeat
+  let h1 : Hub := { h with
+    nextSid := s + 1
+    sess := fun k => if k = s then some x else h.sess k
+    connSess := fun k => if k = c then some s else h.connSess k
+    expectHello := removeL h.expectHello c
+    sessL := fun k => if k = s then true else h.sessL k
+    count := fun b' => if b' = b && counted && h.limit b ≠ 0 then h.count b ++ [s] else h.count b'
+    anon := if user = "" && kind ≠ .internal then h.anon ++ [s] else h.anon
+    dialout := if kind = .internal && dialoutFeat then h.dialout ++ [s] else h.dialout }
+  if user ≠ "" then setUserL h1 b user (h1.userL b user ++ [s]) else h1
+
+/-- `Backend.AddSession` refuses: the backend has a limit and it is reached. -/
+def limitReached (h : Hub) (b : Nat) (kind : Kind) : Bool :=
+  kind ≠ .internal && h.limit b ≠ 0 && (h.count b).length ≥ h.limit b
+
 def processHello (a : Acc) (c b : Nat) (kind : Kind) (user : String) (dialoutFeat inCallFeat : Bool) : Acc :=
   if !a.h.connOpen c || (a.h.connSess c).isSome then a else
   let h := a.h
-  let counted := kind ≠ .internal
-  if counted && h.limit b ≠ 0 && (h.count b).length ≥ h.limit b then
+  if limitReached h b kind then
     { a with h := { h with expectHello := removeL h.expectHello c ++ [c] }, outs := a.outs ++ [⟨c, .error "session_limit_exceeded", some b⟩] }
   else
-    let s := h.nextSid
-    let x : Sess := { backend := b, kind := kind, user := user, dialoutFeat := dialoutFeat, inCallFeat := inCallFeat, conn := some c,
-                      inCall := if kind = .internal && !inCallFeat then 3 else 0 }
-    let h1 : Hub := { h with
-      nextSid := s + 1
-      sess := fun k => if k = s then some x else h.sess k
-      connSess := fun k => if k = c then some s else h.connSess k
-      expectHello := removeL h.expectHello c
-      sessL := fun k => if k = s then true else h.sessL k
-      count := fun b' => if b' = b && counted && h.limit b ≠ 0 then h.count b ++ [s] else h.count b'
-      anon := if user = "" && kind ≠ .internal then h.anon ++ [s] else h.anon
-      dialout := if kind = .internal && dialoutFeat then h.dialout ++ [s] else h.dialout }
-    let h2 := if user ≠ "" then setUserL h1 b user (h1.userL b user ++ [s]) else h1
-    { a with h := h2, outs := a.outs ++ [⟨c, .hello s user, some b⟩] }
+    { a with h := helloTables h c b kind user dialoutFeat inCallFeat, outs := a.outs ++ [⟨c, .hello h.nextSid user, some b⟩] }
 
 /-- `UserId()`: the authenticated user, or the one supplied with the room join. -/
 def userOf (h : Hub) (s : Nat) (x : Sess) : String :=
@@ -575,6 +589,30 @@ def notifyResumed (a : Acc) (s : Nat) : Acc :=
         let users := addInternalSessions a.h rm rm.users
         if users = [] then a else sendTo a s (.partUsers users)
 
+/-- The tables after session `s` (record `x`) was attached to connection `c` (`SetClient` + the
+bookkeeping in `processHello`): a previous connection is closed, queued messages are handed over. -/
+def resumeTables (h : Hub) (c s : Nat) (x : Sess) : Hub :=
+  let h1 := match x.conn with
+    | some p => closeConn h p
+    | none => h
+  { (setSess h1 s (some { x with conn := some c, pending := [] })) with
+    connSess := fun k => if k = c then some s else h1.connSess k
+    expired := removeL h1.expired s
+    expectHello := removeL h1.expectHello c }
+
+/-- Writing the queued messages to the new connection (`SendMessages`: raw, no filter). -/
+def flushPending (a : Acc) (s : Nat) (pend : List Msg) : Acc :=
+  pend.foldl (fun a m =>
+    match a.h.sess s with
+    | some y =>
+      (match y.conn with
+       | some c' => { a with outs := a.outs ++ [⟨c', m, some y.backend⟩], closes := if isClosing y m then a.closes ++ [s] else a.closes }
+       | none => a)
+    | none => a) a
+
+/-- The participants list is sent on resume unless one was among the queued messages. -/
+def needsParticipants (pend : List Msg) : Bool := pend = [] || !(pend.any isPartUpdate)
+
 /-- Resume with the private id of session `s` (`none`: an id that does not decode / unknown). -/
 def processResume (a : Acc) (c : Nat) (os : Option Nat) : Acc :=
   if !a.h.connOpen c || (a.h.connSess c).isSome then a else
@@ -586,36 +624,27 @@ def processResume (a : Acc) (c : Nat) (os : Option Nat) : Acc :=
     | some x =>
       if x.kind = .virtual then { a with outs := a.outs ++ [⟨c, .error "no_such_session", none⟩] } else
       -- SetClient: take over from a previous connection
-      let (h1, outs1) := match x.conn with
-        | some p => (closeConn a.h p, [(⟨p, Msg.bye "session_resumed", some x.backend⟩ : Out)])
-        | none => (a.h, [])
-      let pend := x.pending
-      let hadPart := pend.any isPartUpdate
-      let x1 : Sess := { x with conn := some c, pending := [] }
-      let h2 : Hub := { (setSess h1 s (some x1)) with
-        connSess := fun k => if k = c then some s else h1.connSess k
-        expired := removeL h1.expired s
-        expectHello := removeL h1.expectHello c }
-      let a3 : Acc := { a with h := h2, outs := a.outs ++ outs1 ++ [⟨c, .hello s (userOf h2 s x1), some x.backend⟩] }
-      -- NotifySessionResumed: flush what was queued (written raw, no filter), then the participants list
-      let a4 := pend.foldl (fun a m =>
-        match a.h.sess s with
-        | some y =>
-          (match y.conn with
-           | some c' => { a with outs := a.outs ++ [⟨c', m, some y.backend⟩], closes := if isClosing y m then a.closes ++ [s] else a.closes }
-           | none => a)
-        | none => a) a3
-      if pend = [] || !hadPart then notifyResumed a4 s else a4
+      let outs1 : List Out := match x.conn with
+        | some p => [⟨p, Msg.bye "session_resumed", some x.backend⟩]
+        | none => []
+      let h2 := resumeTables a.h c s x
+      let a3 : Acc := { a with h := h2, outs := a.outs ++ outs1 ++ [⟨c, .hello s (userOf h2 s { x with conn := some c, pending := [] }), some x.backend⟩] }
+      -- NotifySessionResumed: flush what was queued, then the participants list unless one was queued
+      let a4 := flushPending a3 s x.pending
+      if needsParticipants x.pending then notifyResumed a4 s else a4
+
+/-- The tables after connection `c` of session `s` dropped (`Hub.processUnregister`). -/
+def disconnectTables (h : Hub) (c s : Nat) : Hub :=
+  let h0 := closeConn h c
+  let h1 := modSess h0 s (fun x => if x.conn = some c then { x with conn := none } else x)
+  { h1 with expired := removeL h1.expired s ++ [s] }
 
 /-- The connection dropped (`Hub.processUnregister`). -/
 def processDisconnect (a : Acc) (c : Nat) : Acc :=
   if !a.h.connOpen c then a else
-  let h := closeConn a.h c
   match a.h.connSess c with
-  | none => { a with h := h }
-  | some s =>
-    let h1 := modSess h s (fun x => if x.conn = some c then { x with conn := none } else x)
-    { a with h := { h1 with expired := removeL h1.expired s ++ [s] } }
+  | none => { a with h := closeConn a.h c }
+  | some s => { a with h := disconnectTables a.h c s }
 
 def processBye (a : Acc) (c : Nat) : Acc :=
   match a.h.connSess c with
@@ -627,24 +656,28 @@ def processBye (a : Acc) (c : Nat) : Acc :=
     let a2 := processDisconnect a1 c
     closeSession a2 s
 
+/-- An anonymous session that did not join a room in time: bye to its connection (which is
+then closed) and `session.Close()`. -/
+def timeoutAnon (a : Acc) (s : Nat) : Acc :=
+  match a.h.sess s with
+  | none => a
+  | some x =>
+    match x.conn with
+    | some c =>
+      let a1 := closeSession { a with outs := a.outs ++ [⟨c, Msg.bye "room_join_timeout", some x.backend⟩] } s
+      { a1 with h := closeConn a1.h c }
+    | none => closeSession a s
+
+/-- A connection that did not say hello in time. -/
+def timeoutHello (a : Acc) (c : Nat) : Acc :=
+  { a with outs := a.outs ++ [⟨c, Msg.bye "hello_timeout", none⟩], h := closeConn a.h c }
+
 /-- `performHousekeeping(now)` with `now` past the deadlines of the selected classes:
 level 1 = pending hellos, 2 = + anonymous sessions without room, 3 = + disconnected sessions. -/
 def housekeeping (a : Acc) (level : Nat) : Acc :=
   let a1 := if level ≥ 3 then a.h.expired.foldl closeSession a else a
-  let a2 := if level ≥ 2 then a1.h.anon.foldl (fun a s =>
-      match a.h.sess s with
-      | none => a
-      | some x =>
-        -- bye to the connection (which is then closed) and `session.Close()`
-        let a' : Acc := match x.conn with
-          | some c => { a with outs := a.outs ++ [⟨c, Msg.bye "room_join_timeout", some x.backend⟩] }
-          | none => a
-        let a'' := closeSession a' s
-        match x.conn with
-        | some c => { a'' with h := closeConn a''.h c }
-        | none => a'') a1 else a1
-  if level ≥ 1 then a2.h.expectHello.foldl (fun a c =>
-      { a with outs := a.outs ++ [⟨c, Msg.bye "hello_timeout", none⟩], h := closeConn a.h c }) a2 else a2
+  let a2 := if level ≥ 2 then a1.h.anon.foldl timeoutAnon a1 else a1
+  if level ≥ 1 then a2.h.expectHello.foldl timeoutHello a2 else a2
 
 /-! ### messages and control messages (Hub.processMessageMsg / processControlMsg) -/
 
@@ -687,6 +720,23 @@ def processMessage (a : Acc) (s : Nat) (ctl : Bool) (rc : Rcpt) (data : String) 
 
 /-! ### internal clients: virtual sessions (Hub.processInternalMsg) -/
 
+def virtSess (s : Nat) (x : Sess) (r vkey user : String) (inCall : Option Nat) : Sess :=
+  { backend := x.backend, kind := .virtual, user := user, parent := s, vkey := vkey, room := some r,
+    inCall := match inCall with | some n => n | none => if x.inCallFeat then 0 else 9 }
+
+/-- The tables after internal session `s` (record `x`) added a virtual session for room `r`
+(`NewVirtualSession`, `Hub.sessions/virtualSessions`, `AddVirtualSession`, `SetRoom`). -/
+def virtualTables (h : Hub) (s : Nat) (x : Sess) (r vkey user : String) (inCall : Option Nat) : Hub :=
+  let v := h.nextSid
+  let vx : Sess := virtSess s x r vkey user inCall
+  let h1 : Hub := { h with
+    nextSid := v + 1
+    sess := fun k => if k = v then some vx else if k = s then some { x with children := x.children ++ [v] } else h.sess k
+    sessL := fun k => if k = v then true else h.sessL k
+    vtable := fun p k => if p = s ∧ k = vkey then some v else h.vtable p k }
+  -- SetRoom: room-session id of a virtual session is its own public id
+  rsSet h1 v (pubRs v)
+
 def addVirtual (a : Acc) (s : Nat) (r vkey user : String) (inCall : Option Nat) (backendOk : Bool) : Acc :=
   match a.h.sess s with
   | none => a
@@ -696,18 +746,7 @@ def addVirtual (a : Acc) (s : Nat) (r vkey user : String) (inCall : Option Nat) 
     | none => a
     | some _ =>
       if !backendOk then sendTo a s (.error "add_failed") else
-      let v := a.h.nextSid
-      let h0 : Hub := { a.h with nextSid := v + 1 }
-      let vx : Sess := { backend := x.backend, kind := .virtual, user := user, parent := s, vkey := vkey,
-                         inCall := match inCall with | some n => n | none => if x.inCallFeat then 0 else 9 }
-      let h1 : Hub := { h0 with
-        sess := fun k => if k = v then some vx else h0.sess k
-        sessL := fun k => if k = v then true else h0.sessL k
-        vtable := fun p k => if p = s ∧ k = vkey then some v else h0.vtable p k }
-      let h2 := modSess h1 s (fun p => { p with children := p.children ++ [v] })
-      -- SetRoom: room-session id of a virtual session is its own public id
-      let h3 := rsSet (modSess h2 v (fun y => { y with room := some r })) v ("pub:" ++ toString v)
-      roomAddSession { a with h := h3 } x.backend r v .virtual ""
+      roomAddSession { a with h := virtualTables a.h s x r vkey user inCall } x.backend r a.h.nextSid .virtual ""
 
 def removeVirtual (a : Acc) (s : Nat) (r vkey : String) : Acc :=
   match a.h.sess s with
